@@ -85,6 +85,15 @@ func cloneValue(src interface{}, dst interface{}) {
 			dstElem.SetMapIndex(srcKey, dstVal)
 		}
 
+	case reflect.Array:
+		// an array is copied by value but what its elements
+		// point to is not, we need to clone every element
+		tmp := reflect.New(srcType).Elem()
+		for i := 0; i < srcVal.Len(); i++ {
+			cloneValue(srcVal.Index(i).Interface(), tmp.Index(i).Addr().Interface())
+		}
+		dstVal.Elem().Set(tmp)
+
 	case reflect.Struct:
 		srcType := srcVal.Type()
 		// we deep copy structure
